@@ -28,7 +28,7 @@ def scenario(tier, G=2, lean=False):
                 fmts = [f for f in FM if sym.flag("g%d_%s" % (g, f))]
                 if not fmts:
                     sym.assume(False)
-            mode = "folder" if g == 0 else sym.choose("mode%d" % g, ["folder", "sf-file", "sf-folder"])
+            mode = "folder" if g == 0 else sym.choose("mode%d" % g, ["folder", "sf-file", "sf-folder", "sf-folder-and-file-in-it"])
             if g == 1 and sym.flag("file_added_before_gen1"):
                 b.mkfile("R/z/new report.txt", 9)
                 files["R/z/new report.txt"] = orig["R/z/new report.txt"] = cur["R/z/new report.txt"] = 9
@@ -48,6 +48,8 @@ def scenario(tier, G=2, lean=False):
                 r = b.run("create", root="R", h=fmts)
             elif mode == "sf-file":
                 r = b.run("create", root="R", h=fmts, sf=["R/d/b.txt"])
+            elif mode == "sf-folder-and-file-in-it":
+                r = b.run("create", root="R", h=fmts, sf=["R/d", "R/d/b.txt"])  # overlapping arguments: b.txt is named twice
             else:
                 r = b.run("create", root="R", h=fmts, sf=["R/d/e"])
             b.require(r.exit in (0, 11) and (r.exc is None or r.exit == 11), "setup-create", "gen %d: %s" % (g, r))
@@ -108,7 +110,7 @@ def scenario(tier, G=2, lean=False):
     return fn
 
 
-def harnesses(tier):
+def _harnesses(tier):
     out = ["histories with nested child histories or renames (excluded by the statement)", "flatten -n / ignore options"]
     hs = [Harness("c18-flatten", scenario(tier, 2), frontier=6, budget_s=2400,
                   what="flat history of 1-2 generations (first in folder mode, then folder / -sf file / -sf folder), every non-empty subset of 3 "
@@ -121,3 +123,8 @@ def harnesses(tier):
                           what="the same with 1-3 generations, restricted format sequences (md5 | md5+sha1, then md5 | xxh64), fixed zone",
                           bounds={"generations": "1-3"}, outside=out))
     return hs
+
+
+def harnesses(tier):
+    from . import tour
+    return list(_harnesses(tier)) + tour.harnesses(tier, "C18")
